@@ -75,3 +75,20 @@ func init() {
 		})
 	})
 }
+
+func init() {
+	register("C07", func(r *Run) error {
+		return runT(r, &TSpec{
+			ID: "C07", Test: "TestC07", Checks: [2]int{16000, 320000}, Shards: [2]int{16, 16},
+			Rule:        "arbitrary rule-reference graphs (2-6 rules) drawn by rapid, every reference placed behind a drawn prefix kind (nothing, consuming terminal, [^], x?, x*, empty literal, &x, !x, &{}, #{}, [], nullable rules) and optionally wrapped ((R)? (R)* (R)+ &R !R l:R, inside ( .. R .. )?, inside recovery operators, behind a throw); two-sided oracle with an explicit gap: (R) MUST REJECT when the reference interpreter finds, on a fixed set of short inputs plus sampled derivations, a rule re-entered at an offset at which it is already active (a concrete witness of unbounded recursion) - the in-process build without -support-left-recursion must fail with builder.ErrHaveLeftRecursion; (A) MUST ACCEPT when the over-approximated first-graph (through & ! and recovery expressions, textbook nullability) has no cycle - the build must succeed; grammars in between are counted 'undecided' and never reported; every 40th decided case also goes through the command (exit 5 + diagnostic / exit 0). Non-trivial = the plain reference graph has a cycle. Accepted grammars never recursing without bound at run time is exercised by every Engine B check (all their grammars are accepted ones and run under a watchdog).",
+			Assumptions: toolAssumptions,
+		})
+	})
+	register("C19", func(r *Run) error {
+		return runT(r, &TSpec{
+			ID: "C19", Test: "TestC19", Checks: [2]int{2400, 40000}, Shards: [2]int{16, 16},
+			Rule:        "grammars drawn by rapid: arbitrary reference graphs with several cycles and leader candidates and mutually nullable rules (with and without -support-left-recursion), well-formed left-recursive grammars, optimizer bait, throw/recover, adversarial names, x -optimize-grammar (with alternate entrypoints) / -optimize-parser / -optimize-basic-latin; relation: 12 repeated in-process runs of parse -> optimize -> build -> format (Go randomises every map iteration) give byte-identical output or the identical diagnostic; every 25th case is also generated three times by the real command and compared. Non-trivial = the first-graph has a cycle or -optimize-grammar is on.",
+			Assumptions: toolAssumptions,
+		})
+	})
+}
